@@ -18,6 +18,7 @@ import (
 	"os/exec"
 	"path/filepath"
 	"regexp"
+	"sort"
 	"strings"
 	"sync"
 	"syscall"
@@ -295,9 +296,9 @@ func classifyWorkerDeath(path, exit string) crashInfo {
 		case strings.HasPrefix(fn, "github.com/influxdata/influxdb/"):
 			ci.Func, ci.inTarget = strings.TrimPrefix(fn, "github.com/influxdata/influxdb/"), true
 		case strings.HasPrefix(fn, "github.com/influxdata/influxql"):
-			ci.Func, ci.inTarget = "influxql" + fn[strings.LastIndex(fn, "/influxql")+len("/influxql"):], true
+			ci.Func, ci.inTarget = "influxql"+fn[strings.LastIndex(fn, "/influxql")+len("/influxql"):], true
 		case strings.HasPrefix(fn, "github.com/influxtsdb/influxql"):
-			ci.Func, ci.inTarget = "influxql" + fn[strings.LastIndex(fn, "/influxql")+len("/influxql"):], true
+			ci.Func, ci.inTarget = "influxql"+fn[strings.LastIndex(fn, "/influxql")+len("/influxql"):], true
 		case strings.HasPrefix(fn, "main.") || strings.HasPrefix(fn, "verifharness"):
 			ci.Func, ci.harness = fn, true
 		default:
@@ -400,7 +401,6 @@ func (d *driver) died(s *stream, phase string) {
 	d.startWorker(w.uintOn)
 }
 
-
 func frameSummary(s *stream) string {
 	var parts []string
 	for _, f := range s.Frames {
@@ -473,7 +473,7 @@ func (d *driver) runStream(s *stream) {
 
 	// Allocation delta of the node for this connection (the worker answers once the connection's handler is done).
 	r.Count("us_io", int64(time.Since(tio)/time.Microsecond))
-	r.Count("us_io_"+s.Kind, int64(time.Since(tio)/time.Microsecond))
+
 	ts := time.Now()
 	st, err := w.stat()
 	r.Count("us_stat", int64(time.Since(ts)/time.Microsecond))
@@ -608,12 +608,12 @@ func (d *driver) probe() (bool, string) {
 
 var reHex = regexp.MustCompile(`\(0x[0-9a-f?, x{}.]*\)|\+0x[0-9a-f]+|, \d+ minutes`)
 
-// handlerStacks extracts, normalised, the goroutines of a dump that run a connection handler and are not waiting for input.
-func handlerStacks(dump string) (stacks []string) {
+// handlerStacks extracts, normalised, the goroutines of a dump that run a connection handler (not its companion
+// goroutine that waits for the service to close) and are not waiting for input; tops are the repository functions
+// they are blocked in.
+func handlerStacks(dump string) (stacks []string, tops []string) {
+	seen := map[string]bool{}
 	for _, g := range strings.Split(dump, "\n\n") {
-		if !strings.Contains(g, "coordinator.(*Service).handleConn") {
-			continue
-		}
 		head := g
 		if i := strings.IndexByte(g, '\n'); i > 0 {
 			head = g[:i]
@@ -621,13 +621,36 @@ func handlerStacks(dump string) (stacks []string) {
 		if strings.Contains(head, "[IO wait") || strings.Contains(head, "[running") || strings.Contains(head, "[runnable") || strings.Contains(head, "[syscall") {
 			continue
 		}
-		stacks = append(stacks, reHex.ReplaceAllString(g[len(head):], ""))
+		body := reHex.ReplaceAllString(g[len(head):], "")
+		isHandler, top := false, ""
+		for _, l := range strings.Split(body, "\n") {
+			if strings.HasPrefix(l, "\t") || l == "" {
+				continue
+			}
+			l = strings.TrimSpace(l)
+			if top == "" && strings.HasPrefix(l, "github.com/influxdata/influxdb/") {
+				top = strings.TrimPrefix(l, "github.com/influxdata/influxdb/")
+			}
+			if l == "github.com/influxdata/influxdb/coordinator.(*Service).handleConn" {
+				isHandler = true
+			}
+		}
+		if !isHandler {
+			continue
+		}
+		stacks = append(stacks, body)
+		if !seen[top] {
+			seen[top] = true
+			tops = append(tops, top)
+		}
 	}
-	return stacks
+	sort.Strings(stacks)
+	sort.Strings(tops)
+	return stacks, tops
 }
 
 // wedged: the process lives but the probe got no well-formed answer. Two goroutine dumps apart showing the same
-// handler blocked on something other than its socket are evidence of a wedge; anything else is inconclusive.
+// handlers blocked on something other than their sockets are evidence of a wedge; anything else is inconclusive.
 func (d *driver) wedged(s *stream, why string) {
 	d1 := d.w.dump()
 	time.Sleep(2 * time.Second)
@@ -636,15 +659,20 @@ func (d *driver) wedged(s *stream, why string) {
 		return
 	}
 	d2 := d.w.dump()
-	h1, h2 := handlerStacks(d1), handlerStacks(d2)
+	h1, _ := handlerStacks(d1)
+	h2, tops := handlerStacks(d2)
 	if ok, _ := d.probe(); ok {
 		r.Inconclusive(fmt.Sprintf("%s: liveness probe failed once (%s) and succeeded on retry", s.ID, why))
 		return
 	}
 	if len(h1) > 0 && strings.Join(h1, "\n") == strings.Join(h2, "\n") {
-		r.Violation("C15/unresponsive/handler-blocked", s.ID,
-			fmt.Sprintf("node stopped answering well-formed requests (%s) after stream kind=%s %s; the same handler goroutines are blocked in two dumps 2s apart; bytes=%s",
-				why, s.Kind, frameSummary(s), hexCap(s.Bytes, 96)), witness{Stream: s, Note: why, WorkerStack: strings.Join(h2, "\n\n")})
+		r.Count("wedged_nodes", 1)
+		known := r.Violation("C15/unresponsive/blocked-in/"+strings.Join(tops, "+"), s.ID,
+			fmt.Sprintf("node stopped answering well-formed requests (%s) after stream kind=%s %s; the same handler goroutines are blocked in %s in two dumps 2s apart; bytes=%s",
+				why, s.Kind, frameSummary(s), strings.Join(tops, ", "), hexCap(s.Bytes, 96)), witness{Stream: s, Note: why, WorkerStack: strings.Join(h2, "\n\n")})
+		if known {
+			r.Nontrivial(s.key())
+		}
 	} else {
 		r.Inconclusive(fmt.Sprintf("%s: liveness probe failed (%s) but the node process is alive and not provably blocked", s.ID, why))
 	}
@@ -743,6 +771,13 @@ func respErr(t int, payload []byte) (isErr bool, perr error) {
 	return false, fmt.Errorf("type %d is not a response type", t)
 }
 
+func firstByte(s *stream) int {
+	if len(s.Bytes) == 0 {
+		return -1
+	}
+	return int(s.Bytes[0])
+}
+
 func (d *driver) judgeReply(s *stream, reply []byte, dispatched bool) {
 	hdr := int(coordinator.MuxHeader)
 	if len(reply) > 0 {
@@ -764,7 +799,7 @@ func (d *driver) judgeReply(s *stream, reply []byte, dispatched bool) {
 		if dispatched || (len(reply) > 0 && !bytes.HasPrefix(reply, []byte("HTTP/"))) {
 			r.Violation("C15/mux/foreign-header-reached-coordinator", s.ID,
 				fmt.Sprintf("a connection whose first byte is %d (not the coordinator's mux header %d) was handled by the coordinator service: reply=%s counters-moved=[%s]; bytes=%s",
-					s.Header, hdr, hexCap(reply, 32), s.moved, hexCap(s.Bytes, 64)), witness{Stream: s, Reply: hexCap(reply, 256)})
+					firstByte(s), hdr, hexCap(reply, 32), s.moved, hexCap(s.Bytes, 64)), witness{Stream: s, Reply: hexCap(reply, 256)})
 			return
 		}
 		r.Nontrivial(s.key())
